@@ -1690,3 +1690,91 @@ def _signed_name(e: ast.expr) -> Tuple[int, Optional[str]]:
             s = -s
         e = e.operand
     return (s, e.id) if isinstance(e, ast.Name) else (s, None)
+
+
+# ------------------------------------------------------------------ R-TWO-SIDED
+def rule_two_sided(ctx: Ctx, prog: Program) -> None:
+    """A filtering function that keeps a lower and an upper bound of a count in two locals and answers 'entailed' when the interval they
+    span is a point (`lo == hi`, or `lo == k and hi == k`) holds two beliefs: the count cannot go below `lo` and cannot go above `hi`.  The
+    constraint fails when *either* bound leaves the admissible side, so each of the two locals has to reach a failure exit: it occurs in a
+    test that guards `return PROP_INCONSISTENCY`, or it flows into a domain cell that such a test compares.  A function that tests only
+    one of them ('fewer than c can still be true' kept, 'more than c are already true' lost) accepts single tuples that violate the
+    constraint on the other side.  One-sided comparison, no specification consulted; an unrecognised guard is not judged."""
+    ctx.rule("R-TWO-SIDED")
+    n = 0
+    for _, fn, _ in propagator_triples(prog):
+        params = set(fn.params)
+        assigned: Set[str] = set()
+        for x in ast.walk(fn.node):
+            if isinstance(x, (ast.Assign, ast.AugAssign, ast.AnnAssign)):
+                for t in (x.targets if isinstance(x, ast.Assign) else [x.target]):
+                    if isinstance(t, ast.Name):
+                        assigned.add(t.id)
+        pairs: List[Tuple[str, str, int]] = []
+        for g in _entail_guards_raw(fn):
+            names: List[str] = []
+            ok_shape = True
+            conj = g.values if isinstance(g, ast.BoolOp) and isinstance(g.op, ast.And) else [g]
+            consts: List[str] = []
+            for c in conj:
+                if not (isinstance(c, ast.Compare) and len(c.ops) == 1 and isinstance(c.ops[0], ast.Eq)):
+                    ok_shape = False
+                    break
+                l, r = c.left, c.comparators[0]
+                for side in (l, r):
+                    if isinstance(side, ast.Name) and side.id in assigned and side.id not in params:
+                        names.append(side.id)
+                    elif isinstance(side, (ast.Constant, ast.Name, ast.Attribute)):
+                        consts.append(ast.unparse(side))
+                    else:
+                        ok_shape = False
+            if not ok_shape or len(set(names)) != 2 or len(set(consts)) > 1:
+                continue
+            # the two locals are integer counters: initialised from a length / constant / count and moved by steps, or a vectorised count
+            pairs.append((names[0], [x for x in names if x != names[0]][0], g.lineno))
+        if not pairs:
+            continue
+        # names that reach a failure exit
+        fail_tests: List[ast.expr] = []
+        for x in ast.walk(fn.node):
+            if isinstance(x, ast.If) and any(isinstance(y, ast.Return) and isinstance(y.value, ast.Name) and y.value.id == "PROP_INCONSISTENCY" for y in x.body):
+                fail_tests.append(x.test)
+            if isinstance(x, ast.Return) and isinstance(x.value, ast.IfExp):
+                if isinstance(x.value.body, ast.Name) and x.value.body.id == "PROP_INCONSISTENCY":
+                    fail_tests.append(x.value.test)
+                if isinstance(x.value.orelse, ast.Name) and x.value.orelse.id == "PROP_INCONSISTENCY":
+                    fail_tests.append(x.value.test)
+        reach: Set[str] = set()
+        cells: Set[str] = set()
+        for t in fail_tests:
+            for y in ast.walk(t):
+                if isinstance(y, ast.Name):
+                    reach.add(y.id)
+                if isinstance(y, ast.Subscript):
+                    cells.add(ast.unparse(y))
+        changed = True
+        while changed:
+            changed = False
+            for x in ast.walk(fn.node):
+                if isinstance(x, ast.Assign):
+                    for t in x.targets:
+                        hit = (isinstance(t, ast.Subscript) and ast.unparse(t) in cells) or (isinstance(t, ast.Name) and t.id in reach and t.id not in {p for pr in pairs for p in pr[:2]})
+                        if hit:
+                            for y in ast.walk(x.value):
+                                if isinstance(y, ast.Name) and y.id not in reach:
+                                    reach.add(y.id)
+                                    changed = True
+        for lo, hi, line in pairs:
+            n += 1
+            ctx.fn(fn.fq)
+            missing = [v for v in (lo, hi) if v not in reach]
+            if not missing:
+                ctx.ok("R-TWO-SIDED", f"{fn.name}: both `{lo}` and `{hi}` reach a failure exit", sample={"line": line})
+            elif len(missing) == 1:
+                ctx.violation("R-TWO-SIDED", fn.path, fn.name, f"one-sided:{missing[0]}", f"{fn.path}:{line}",
+                              f"{fn.name}: answers 'entailed' when `{lo}` and `{hi}` meet, so both bound a count; `{missing[0]}` never reaches a test that "
+                              "returns PROP_INCONSISTENCY (directly or through a domain cell): the constraint is only rejected on the other side, and a "
+                              "single tuple that violates it on this side is answered 'consistent'")
+            else:
+                ctx.undecided_site("R-TWO-SIDED", f"{fn.name}:{lo}:{hi}", "neither bound reaches a failure exit in a form this rule reads")
+    ctx.floor("R-TWO-SIDED:point-interval entailment guards", n, 3)
